@@ -1,6 +1,6 @@
-(* stl.go: the writer's guarded dereferences of the cue list (Model/StlCW.v) never reach a panic site when no element of
-   the cue list is nil, and compute the flattening the writer model is stated on; a nil element is the one unguarded
-   dereference of WriteToSTL. *)
+(* stl.go: the writer's guarded dereferences of the cue list (Model/StlCW.v) never reach a panic site, and compute the flattening
+   the writer model is stated on; nil elements of the cue list are filtered by WriteToSTL (nonNilItems) before anything
+   looks at it. *)
 From Coq Require Import List ZArith NArith Bool.
 From Astisub Require Import Kit.Base Kit.Str Kit.Chk Model.Stl Model.StlCW.
 Import ListNotations.
@@ -17,16 +17,36 @@ Qed.
 Lemma map_c_ok {A B} (f : A -> res B) (g : A -> B) : (forall x, f x = Ok (g x)) -> forall l, map_c f l = Ok (map g l).
 Proof. intros H. induction l as [|x r IH]; [reflexivity|]. cbn [map_c map]. rewrite H, IH. reflexivity. Qed.
 
-Theorem items_c_ok (l : list gitem) : items_c (map Some l) = Ok (map item_flat l).
+Lemma item_c_ok i : item_c i = Ok (item_flat i).
 Proof.
-  unfold items_c. induction l as [|i r IH]; [reflexivity|]. cbn [map map_c]. unfold item_c at 1. cbn [deref bind].
-  rewrite just_c_ok, vp_c_ok. cbn [bind]. rewrite (map_c_ok _ _ (map_c_ok _ _ run_c_ok)). cbn [bind]. rewrite IH. reflexivity.
+  unfold item_c. rewrite just_c_ok, vp_c_ok. cbn [bind]. rewrite (map_c_ok _ _ (map_c_ok _ _ run_c_ok)). reflexivity.
 Qed.
-Theorem items_c_no_panic (l : list gitem) s : items_c (map Some l) <> Panic s.
+(* for EVERY Go-shaped cue list, nil elements included *)
+Theorem items_c_ok (l : list (option gsitem)) : items_c l = Ok (map item_flat (somes l)).
+Proof. unfold items_c. apply map_c_ok. exact item_c_ok. Qed.
+Theorem items_c_no_panic (l : list (option gsitem)) s : items_c l <> Panic s.
 Proof. rewrite items_c_ok. discriminate. Qed.
-(* the one dereference without a guard: a nil *Item in the cue list (the library's own readers never produce one) *)
-Example items_c_nil_item : items_c [None] = Panic 702.
-Proof. reflexivity. Qed.
+(* nil elements are skipped: the list without them gives the same flattened list *)
+Theorem items_c_nil_skipped (a b : list (option gsitem)) : items_c (a ++ None :: b) = items_c (a ++ b).
+Proof. rewrite !items_c_ok, !somes_app. reflexivity. Qed.
+(* before the filter (repo 4240852) a nil *Item was dereferenced at 702: the guard dropped, the site is reachable *)
+Example items_unguarded_nil_item : items_unguarded_c [None] = Panic 702 /\ items_c [None] = Ok [].
+Proof. split; reflexivity. Qed.
+
+(* the whole writer on the Go-shaped list *)
+From Astisub Require Import Model.StlC Proofs.StlChk.
+Theorem write_stl_items_c_ok now md (l : list (option gsitem)) :
+  write_stl_items_c now md l = write_stl now md (map item_flat (somes l)).
+Proof. unfold write_stl_items_c. rewrite items_c_ok. cbn [bind]. apply write_stl_c_ok. Qed.
+Theorem write_stl_items_c_no_panic now md (l : list (option gsitem)) site : write_stl_items_c now md l <> Panic site.
+Proof. rewrite write_stl_items_c_ok, <- write_stl_c_ok. apply write_stl_c_no_panic. Qed.
+Theorem write_stl_items_c_nil_skipped now md (a b : list (option gsitem)) :
+  write_stl_items_c now md (a ++ None :: b) = write_stl_items_c now md (a ++ b).
+Proof. rewrite !write_stl_items_c_ok, !somes_app. reflexivity. Qed.
+Theorem write_stl_items_c_all_nil now md n : write_stl_items_c now md (repeat None n) = write_stl now md [].
+Proof.
+  rewrite write_stl_items_c_ok. f_equal. induction n as [|n IH]; [reflexivity|]. cbn [repeat somes]. exact IH.
+Qed.
 (* dropping the guard of stlJustificationCodeFromStyle makes its site reachable *)
 Definition just_unguarded (sa : option gstyle) : res (option N) := do s <- deref sa 724; do j <- deref (gs_just s) 727; Ok (Some j).
 Example just_unguarded_panics : just_unguarded None = Panic 724 /\ just_unguarded (Some (mkGstyle None None None None None)) = Panic 727.
